@@ -1013,9 +1013,6 @@ pub fn arch(rep: &mut Report, tier: Tier) {
                 rep.viol(idx, "shape", format!("after {name}: current_shape {:?} but the network built so far has output width {width} | calls {calls:?}", a.current_shape));
                 break;
             }
-            if name == "argmax()" && res.is_ok() {
-                break;
-            }
         }
         if rejected && act {
             rep.nontrivial(&format!("{calls:?}"));
